@@ -34,6 +34,7 @@ type mdPkt struct {
 	Pad     int  `json:"pad,omitempty"`      // RTX form: padding bytes 0..255
 	AsRTX   bool `json:"as_rtx,omitempty"`   // the original is "lost", only its retransmission is sent
 	Short   int  `json:"short,omitempty"`    // RTX form: 1 = no payload at all, 2 = one payload byte (no room for the OSN)
+	Settle  bool `json:"settle,omitempty"`   // pause after this packet until everything has been delivered and read
 }
 
 type mdCase struct {
@@ -43,6 +44,7 @@ type mdCase struct {
 	Icpt     bool     `json:"interceptors,omitempty"` // both peers run pion's default interceptors (NACK + RTX retransmission, reports, TWCC)
 	BurstAt  int      `json:"burst_at,omitempty"`     // the network loses the first transmission of BurstLen consecutive packets from this index
 	BurstLen int      `json:"burst_len,omitempty"`
+	RichHdr  bool     `json:"rich_hdr,omitempty"`     // written packets carry a CSRC and a one-byte header extension
 	Hold     bool     `json:"hold,omitempty"`         // the reader keeps the packets ReadRTP returned instead of copying them at once
 	Extra    int      `json:"extra_tracks,omitempty"` // further tracks in the bundle
 	WithDC   bool     `json:"with_dc,omitempty"`
@@ -99,6 +101,17 @@ func mdGenFor(prop string) func(seed uint64, idx, total int, tier string) any {
 				}
 			}
 			c.Pkts = append(c.Pkts, p)
+		}
+		if prop == "C26" && r.Bool(0.12) {
+			// a sustained stream of large retransmissions, each read by the application before the next
+			// arrives: the receiver's buffers go round through its pool a hundred times
+			// (1440 payload bytes: with the OSN, the header and the SRTP tag just under an Ethernet-sized datagram)
+			for k := r.Range(80, 120); k > 0; k-- {
+				c.Pkts = append(c.Pkts, mdPkt{PayLen: 1440, TsStep: 3000, AsRTX: true}, mdPkt{PayLen: 20, TsStep: 3000, Settle: true})
+			}
+		}
+		if prop == "C23" {
+			c.RichHdr = r.Bool(0.5)
 		}
 		return c
 	}
@@ -377,7 +390,7 @@ func mdRunFor(prop string) func(t *testing.T, cj []byte, res *vfResult) {
 				if n < 0 {
 					n = 0
 				}
-				if n > 1100 {
+				if n > 1100 && !(p.AsRTX && n == 1440) {
 					n = 1100
 				}
 				sp.pay = rr.Bytes(n)
@@ -478,6 +491,10 @@ func mdRunFor(prop string) func(t *testing.T, cj []byte, res *vfResult) {
 					lines = append(lines, fmt.Sprintf("rtx for seq %d: csrc=%d ext=%#x/%d bytes pad=%d payload=%d", sp.seq, len(sp.csrc), sp.extP, len(sp.ext), sp.pad, len(sp.pay)))
 				} else {
 					pk := &rtp.Packet{Header: rtp.Header{Version: 2, Marker: sp.mark, SequenceNumber: sp.seq, Timestamp: sp.ts, SSRC: 12345, PayloadType: 96}, Payload: sp.pay}
+					if c.RichHdr {
+						pk.Header.CSRC = []uint32{3}
+						_ = pk.Header.SetExtension(13, []byte{byte(sp.seq), 0xA5})
+					}
 					if err := track.WriteRTP(pk); err != nil {
 						lines = append(lines, "WriteRTP error: "+err.Error())
 					}
@@ -488,7 +505,7 @@ func mdRunFor(prop string) func(t *testing.T, cj []byte, res *vfResult) {
 					// payload type known) before the first RTX packet is put on the wire
 					vfWaitFor(10*time.Second, func() bool { mu.Lock(); defer mu.Unlock(); return len(recv["trk-main"]) > 0 })
 				}
-				if i%4 == 3 || i >= len(c.Pkts)-1 {
+				if i%4 == 3 || i >= len(c.Pkts)-1 || p.Settle {
 					vfSettle(time.Duration(1+i) * time.Millisecond)
 				}
 				if c.Icpt && i >= len(c.Pkts)-1 {
